@@ -131,6 +131,22 @@ pub fn gen(seed: u64, cases: usize, flavour: &str, path: &str) {
         // magnitudes include the clock: epoch milliseconds, a quarter of a second apart
         let (date_step, date_jitter) = if stress == 3 && g.rng.chance(1, 2) { date = 1_700_000_000_000; (250i64, 1u64) } else { (1i64, 3u64) };
         let len = if stress == 1 && batchy { 30 + g.rng.below(40) } else if stress == 1 { 250 + g.rng.below(450) } else if batchy { 3 + g.rng.below(6) } else { 5 + g.rng.below(60) };
+        let deep = g.rng.chance(1, if thorough { 150 } else { 400 });
+        let len = if deep { 4 + g.rng.below(8) } else { len };
+        if deep {
+            // a deep book: several thousand resting limit orders far from the market (buys far below, sells far above)
+            let rounds = 5 + g.rng.below(2);
+            for _ in 0..rounds {
+                for k in 0..1000u64 {
+                    g.line(&format!("I {} {} {} {}", if k % 2 == 1 { 3 } else { 2 }, syms[(k % 3) as usize % nsym.max(1)], fb(100000.0 + k as f64), fb(if k % 2 == 1 { 0.125 } else { 4000.0 })));
+                    pending += 1;
+                }
+                g.line(&format!("T 0"));
+                next_id += pending;
+                pending = 0;
+            }
+            g.stats.bump("stress_book_of_5000_or_more_resting_orders");
+        }
         for _ in 0..len {
             let roll = g.rng.below(10);
             if roll <= 4 {
